@@ -50,10 +50,12 @@ fn hostile_frame(ch: &mut Chooser, reduced: bool) -> Box<dyn Fn(&Probe, &LwCfg, 
             })
         }
         1 => {
-            let fwb = ch.free(4); let pwb = ch.free(5); let groups = ch.free(3); let gb = ch.free(5); let bf = ch.free(8); let nonce = ch.free(2);
+            let fwb = ch.free(4); let pwb = ch.free(8); let groups = ch.free(3); let gb = ch.free(5); let bf = ch.free(8); let nonce = ch.free(2);
             Box::new(move |p: &Probe, _cfg: &LwCfg, _tr: &Trace, _side: usize| {
                 let fbase = [p.tx_frame_log_base.wrapping_sub(1), p.tx_frame_base, p.tx_frame_next, p.tx_frame_next.wrapping_add(1)][fwb];
-                let pbase = [p.tx_packet_base, p.tx_packet_next.wrapping_sub(1), p.tx_packet_next, p.tx_packet_next.wrapping_add(1), p.tx_packet_base.wrapping_add(1)][pwb] & 0xFFFFF;
+                // the field is 32 bits wide on the wire although packet ids have 20: the last three letters set higher bits
+                let pbase = [p.tx_packet_base, p.tx_packet_next.wrapping_sub(1) & 0xFFFFF, p.tx_packet_next, p.tx_packet_next.wrapping_add(1) & 0xFFFFF, p.tx_packet_base.wrapping_add(1) & 0xFFFFF,
+                             p.tx_packet_base | 0x10_0000, p.tx_packet_next | 0x8000_0000, 0xFFFF_FFFF][pwb];
                 let g = AckGroup { base_id: [p.tx_frame_log_base.wrapping_sub(1), p.tx_frame_log_base, p.tx_frame_next.wrapping_sub(1), p.tx_frame_next, p.tx_frame_log_base.wrapping_sub(31)][gb], bitfield: [0u32, 1, 0x8000_0001, 0xFFFF_FFFF, 0b10, 0b100, 0x8000_0000, 0xFFFF_FFFE][bf], nonce: nonce == 1 };
                 let n = [0usize, 1, 161][groups];
                 Frame::AckFrame(AckFrame { frame_window_base_id: fbase, packet_window_base_id: pbase, frame_acks: (0..n).map(|i| AckGroup { base_id: g.base_id.wrapping_add(i as u32 * 3), ..g.clone() }).collect() }).write().to_vec()
@@ -151,7 +153,7 @@ pub fn extreme_frames() -> Vec<(String, Vec<u8>)> {
         for fid in [0x1111_1111u32, 0x1111_1111 + 4095, 0x2222_2222, 0x2222_2222 + 4095, 0] { v.push((format!("data frame {:x} packet {:x} fragment {}/{} {} B", fid, seq, f, l, n), fw(Frame::DataFrame(DataFrame { sequence_id: fid, nonce: false, datagrams: vec![dg(seq, f, l, n)] })))); }
     }
     v.push(("data frame with 127 empty datagrams".into(), fw(Frame::DataFrame(DataFrame { sequence_id: 0x1111_1111, nonce: true, datagrams: (0..127).map(|k| Datagram { sequence_id: 0x11111 + k, channel_id: (k % 64) as u8, window_parent_lead: 0, channel_parent_lead: 0, fragment_id: 0, fragment_id_last: 0, data: vec![].into() }).collect() }))));
-    for (fb, pb) in [(0u32, 0u32), (0x1111_1112, 0x11112), (0x2222_2223, 0x22223), (0xFFFF_FFFF, 0xFFFFF)] { for bf in [1u32, 0xFFFF_FFFF] {
+    for (fb, pb) in [(0u32, 0u32), (0x1111_1112, 0x11112), (0x2222_2223, 0x22223), (0xFFFF_FFFF, 0xFFFFF), (0x1111_1112, 0x11_1112), (0x2222_2223, 0x8002_2223), (0, 0xFFFF_FFFF)] { for bf in [1u32, 0xFFFF_FFFF] {
         v.push((format!("ack fb{:x} pb{:x} bf{:x} x161", fb, pb, bf), fw(Frame::AckFrame(AckFrame { frame_window_base_id: fb, packet_window_base_id: pb, frame_acks: (0..161).map(|k| AckGroup { base_id: fb.wrapping_sub(80).wrapping_add(k), bitfield: bf, nonce: k % 2 == 0 }).collect() }))));
     } }
     for a in [None, Some(0u32), Some(0x1111_1111 + 5000), Some(0x2222_2222 + 4096), Some(0xFFFF_FFFF)] { for b in [None, Some(0u32), Some(0x11111 + 4096), Some(0x22222 + 4097), Some(0xFFFF_FFFF)] {
@@ -216,11 +218,20 @@ pub fn build(quick: bool) -> PropRun {
     for id in ["C01", "C02", "C05", "C11", "C13", "C08", "C09", "C07", "C10", "C17"] { if let Some(p) = crate::props::build(id, if quick { "quick" } else { "thorough" }) { take(p, budget, &mut scs); } }
     // (c)
     let plans: Vec<(bool, usize)> = if quick { vec![(false, 4), (true, 2)] } else { vec![(false, 5), (true, 3)] };
-    let units = crate::c14::units(&plans, true);
-    PropRun { level: "fault_enumeration", scenarios: scs, units, replay_case: Some(crate::c14::replay_case_c03), summary: Summary {
-        rule: "every explored execution runs under catch_unwind with a per-call work budget (2*10^6 loop iterations counted by the fuel hooks) and a 30 s wall-clock watchdog: (a) every hostile data/ack/sync frame of a state-relative boundary alphabet injected into either endpoint at every round of a link-world session, followed by step spacings 0/1/20/2000 ms; (b) every payload of <= 1-2 bytes after every type byte and a list of frames with extreme fields, from the connected address, from a stranger and towards the client, in the pending/active/closing/closed states, after which an honest second client must still be served; (c) all TFRC event sequences of C14; (d) a cross-section of the fault explorations of C01, C02, C05, C07-C11, C13, C17".into(),
+    let mut units = crate::c14::units(&plans, true);
+    // (e) the parser sweeps of C16 (every short payload per type byte, substitutions, extensions, truncation at every length with the
+    // CRC re-fixed, constant fills) with the panic oracle: Client::step / Server::step hand every datagram to Frame::read
+    crate::c16::FOR_C03.store(true, std::sync::atomic::Ordering::Relaxed);
+    units.extend(crate::c16::parse_units(quick));
+    PropRun { level: "fault_enumeration", scenarios: scs, units, replay_case: Some(replay_case_c03), summary: Summary {
+        rule: "every explored execution runs under catch_unwind with a per-call work budget (2*10^6 loop iterations counted by the fuel hooks) and a 30 s wall-clock watchdog: (a) every hostile data/ack/sync frame of a state-relative boundary alphabet injected into either endpoint at every round of a link-world session, followed by step spacings 0/1/20/2000 ms; (b) every payload of <= 1-2 bytes after every type byte and a list of frames with extreme fields, from the connected address, from a stranger and towards the client, in the pending/active/closing/closed states, after which an honest second client must still be served; (c) all TFRC event sequences of C14; (e) the parser sweeps of C16 with the panic oracle; (d) a cross-section of the fault explorations of C01, C02, C05, C07-C11, C13, C17".into(),
         bounds: json!({"lw_rounds": if quick { 8 } else { 12 }, "lw_pairs": !quick, "flood_payload_len": if quick { 1 } else { 2 }, "flood_type_bytes": if quick { "0-13, 32, 64, ..., 250-255" } else { "all 256" }, "extreme_frames": extreme_frames().len(), "tfrc_plans": plans, "fuel_per_call": 2_000_000}),
         assumptions: vec!["build profile: release with debug-assertions and overflow-checks on, so a debug_assert or arithmetic overflow reachable from network input counts as a panic".into(),
                           "a hostile peer may legitimately ruin its own connection; what is asked is that no call panics or fails to return and that other connections are still served".into()],
         witness_names: { let mut w = WITNESSES.to_vec(); while w.len() < 20 { w.push("-"); } w.push("hostile frame injected"); while w.len() < 32 { w.push("-"); } w.extend_from_slice(crate::eprops::EW_WITNESSES); w }, extra: json!({}), exhaustive: true } }
+}
+
+pub fn replay_case_c03(case: &str) -> Vec<Violation> {
+    if case.starts_with("case:parse:") { crate::c16::FOR_C03.store(true, std::sync::atomic::Ordering::Relaxed); return crate::c16::replay_case(case); }
+    crate::c14::replay_case_c03(case)
 }
